@@ -866,6 +866,7 @@ pub fn run(cfg: &Cfg) -> i32 {
     let budget = cfg.tier.pick(Duration::from_secs(300), Duration::from_secs(1500));
     let mut ev = par_run(cfg, cases.len() as u64, budget, |w, i| cases.get(i as usize).map(|c| run_case(w, c)));
     ev.exhaustive = true;
+    crate::memcheck::run(cfg, &mut ev, crate::memcheck::Leg { processes: 16, modulus: 16, limit: Duration::from_secs(900) });
     ev.extra.push((
         "single_point_mutation_space_enumerated_completely".into(),
         J::Bool(!ev.inconclusive.contains_key("wall-budget-reached")),
